@@ -20,3 +20,4 @@ func sidNum(s string) int {
 func producerProjection(*arrow_record.Producer) []any { return []any{} }
 func consumerProjection(*arrow_record.Consumer) []any { return []any{} }
 func producerNext(*arrow_record.Producer) int         { return 0 }
+func consumerIDs(*arrow_record.Consumer) []string    { return nil }
